@@ -3,6 +3,7 @@
 package main
 
 import (
+	"time"
 	"encoding/json"
 	"fmt"
 	"strings"
@@ -225,7 +226,13 @@ func propC04(r *Run) {
 				w.addClient(plan)
 			}
 		}
-		w.runLoop(loopOpts{maxSteps: 3000, wClient: 3, wLoop: 3})
+		lo := loopOpts{maxSteps: 3000, wClient: 3, wLoop: 3}
+		if r.Choose("slow-hashing", 3) == 0 {
+			// time passes while requests are queued or being hashed (a memory-hard hash takes
+			// seconds under load): a verdict is still exactly the store's
+			lo.wClock, lo.clockMenu = 1, []time.Duration{time.Second, 6 * time.Second, 30 * time.Second}
+		}
+		w.runLoop(lo)
 		if wedge := w.drain(nil); wedge != "" {
 			r.FailOther("C10", wedgeSignature(wedge), "%s", wedge)
 			return
